@@ -7,7 +7,8 @@ from . import desc as D, tlc
 from .absval import Q, NAN, PINF, NINF, to_tla
 
 INV_SEM = ["SemInv", "WFInv", "Comm", "Unit", "RoundTrip"]
-INV_LAWS = ["Assoc", "ScaleLaws", "NullWeights", "FillCommutes", "BatchSplit"]
+INV_LAWS = ["Assoc", "ScaleLaws", "NullWeights", "FillCommutes", "BatchSplit", "ViewsAgree"]
+INV_DOC = ["ParseSound", "RoundTrip"]
 INVARIANTS = INV_SEM
 
 
